@@ -16,7 +16,11 @@ each also loaded from files; export_leaf additionally in trees whose root is a d
 inherited-attribute dimension (which levels - Document, ancestor Section, the Section itself, several with different
 or equal URLs - DEFINE the repository the levels below inherit; terminology cache pre-filled: no network, no thread):
 every copied object is compared with what the original object itself owns (private field and public getter), the
-applicable repository inside the detached copy, and of a clone put into another document, is derived from that.
+applicable repository inside the detached copy, and of a clone put into another document, is derived from that;
+the value-content dimension (WHAT the copied Properties hold: for every dtype the extreme / unusual legitimate values -
+dates and datetimes before the year 1000, first / last date, midnight, huge / negative ints, inf / nan / -0.0 / tiny
+floats, empty / blank / multi-line text, tuples with empty elements, ... - entered as text and as native objects, alone
+and among ordinary values, in the copied Section and in a Section above it; also as lists handed out by / in to `values`).
 """
 from __future__ import annotations
 
@@ -898,10 +902,153 @@ def observed_effective(root):
 
 
 # ---------------------------------------------------------------------------------------------
+# value-content dimension: WHAT the copied Properties hold
+# ---------------------------------------------------------------------------------------------
+# The contract quantifies over all documents, hence over every value a Property can legitimately hold.  A copy is
+# made from the STORED values, so the extreme and unusual members of every dtype are enumerated here: each one entered
+# as text in the documented format (what the file readers hand in) and as the native Python object, alone and among
+# ordinary values of the same dtype, in the Section that is copied / exported and in a Section above it.  A value is
+# legitimate when the library accepted it (the document could be built); the oracle is the one of every other
+# document: the copy is handed out, equals what the original holds, and is independent of it.
+
+_SAME = object()      # the native form is the text itself
+
+VALUE_CASES = {
+    'date': [('year-below-1000', '0987-06-05', dt.date(987, 6, 5)), ('year-below-100', '0033-04-03', dt.date(33, 4, 3)),
+             ('first-date', '0001-01-01', dt.date.min), ('last-date', '9999-12-31', dt.date.max),
+             ('leap-day', '2000-02-29', dt.date(2000, 2, 29))],
+    'datetime': [('year-below-1000', '0987-06-05 04:03:02', dt.datetime(987, 6, 5, 4, 3, 2)),
+                 ('year-1', '0001-01-01 00:00:00', dt.datetime(1, 1, 1, 0, 0, 0)),
+                 ('last-datetime', '9999-12-31 23:59:59', dt.datetime(9999, 12, 31, 23, 59, 59)),
+                 ('midnight', '2020-01-02 00:00:00', dt.datetime(2020, 1, 2, 0, 0, 0)),
+                 ('last-second-of-day', '1999-12-31 23:59:59', dt.datetime(1999, 12, 31, 23, 59, 59))],
+    'time': [('midnight', '00:00:00', dt.time(0, 0, 0)), ('last-second-of-day', '23:59:59', dt.time(23, 59, 59)),
+             ('single-digits', '01:02:03', dt.time(1, 2, 3))],
+    'int': [('zero', '0', 0), ('negative', '-5', -5), ('huge', '123456789012345678901234567890', 10 ** 29 + 7),
+            ('negative-huge', '-98765432109876543210', -98765432109876543210)],
+    'float': [('inf', 'inf', float('inf')), ('negative-inf', '-inf', float('-inf')), ('nan', 'nan', float('nan')),
+              ('negative-zero', '-0.0', -0.0), ('huge', '1e308', 1e308), ('tiny', '5e-324', 5e-324),
+              ('zero', '0.0', 0.0), ('not-exactly-representable', '0.30000000000000004', 0.1 + 0.2)],
+    'boolean': [('true', 'true', True), ('false', 'false', False), ('true-abbreviated', 't', _SAME),
+                ('false-as-digit', '0', _SAME)],
+    'string': [('empty', '', _SAME), ('blank', ' ', _SAME), ('tab-and-blanks', ' \t ', _SAME),
+               ('line-break', 'a\nb', _SAME), ('blanks-around', '  x  ', _SAME), ('only-line-break', '\n', _SAME),
+               ('carriage-return-line-break', 'a\r\nb', _SAME)],
+    'text': [('empty', '', _SAME), ('only-line-breaks', '\n\n', _SAME), ('line-breaks', 'l1\nl2\n', _SAME),
+             ('carriage-return-line-break', 'l1\r\nl2', _SAME)],
+    'url': [('non-ascii', 'http://ex\u00e4mple.org/\u00fc?x=1&y=2#frag', _SAME),
+            ('blank-in-path', 'file:///C:/a b/c.xml', _SAME), ('not-a-url', 'not a url', _SAME), ('empty', '', _SAME)],
+    'person': [('apostrophe-non-ascii', "O'Brien, Se\u00e1n", _SAME), ('blank', ' ', _SAME),
+               ('digits-and-symbols', 'X \u00c6 A-12 <x@y.z>', _SAME)],
+    '2-tuple': [('both-elements-empty', '(;)', ['', '']), ('second-element-empty', '(a;)', ['a', '']),
+                ('first-element-empty', '(;b)', ['', 'b']), ('blank-elements', '( ; )', [' ', ' ']),
+                ('line-break-in-element', '(a\nb;c)', ['a\nb', 'c'])],
+    '3-tuple': [('all-elements-empty', '(;;)', ['', '', '']), ('middle-element-empty', '(a;;c)', ['a', '', 'c'])],
+}
+
+ORDINARY = {
+    'string': ['n1', 'n2'], 'text': ['nt\n1', 'nt2'], 'int': [41, 42], 'float': [4.5, 5.5], 'boolean': [True, False],
+    'date': [dt.date(2021, 2, 3), dt.date(2022, 3, 4)], 'time': [dt.time(1, 2, 3), dt.time(4, 5, 6)],
+    'datetime': [dt.datetime(2021, 2, 3, 4, 5, 6), dt.datetime(2022, 1, 1, 1, 1, 1)],
+    'url': ['http://n.org/1', 'http://n.org/2'], 'person': ['New, P', 'Other, Q'],
+    '2-tuple': ['(7;8)', '(9;0)'], '3-tuple': ['(x;y;z)', '(u;v;w)'],
+}
+
+
+def ordinary_values(dtype, entered):
+    """Two ordinary values of the dtype, as native objects or as text in the documented format."""
+    vals = list(ORDINARY[dtype])
+    if entered == 'native':
+        return [_deep(tuple_elements(v)) if dtype.endswith('-tuple') else v for v in vals]
+    if dtype == 'datetime':
+        return ['%s %s' % (v.date().isoformat(), v.time().isoformat()) for v in vals]
+    if dtype in ('date', 'time'):
+        return [v.isoformat() for v in vals]
+    if dtype == 'boolean':
+        return ['true' if v else 'false' for v in vals]
+    if dtype in ('int', 'float'):
+        return [repr(v) for v in vals]
+    return vals
+
+
+def tuple_elements(text):
+    return text[1:-1].split(';')
+
+
+def value_specs(tier):
+    """[(dtype, class label, entered, among, place)] - every class x every way of entering it; alone AND among
+    ordinary values, in the copied Section AND in the Section above it (quick tier: these two alternate)."""
+    out = []
+    n = 0
+    for dtype, cases in VALUE_CASES.items():
+        for label, text, native in cases:
+            for entered in ('text', 'native'):
+                if entered == 'native' and native is _SAME:
+                    continue
+                combos = [(a, p) for a in (False, True) for p in ('leaf', 'chain')]
+                if tier == 'quick':
+                    combos = [combos[n % 4]]
+                    n += 1
+                for among, place in combos:
+                    out.append((dtype, label, entered, among, place))
+    return out
+
+
+def special_value(dtype, label, entered):
+    for lab, text, native in VALUE_CASES[dtype]:
+        if lab == label:
+            return text if (entered == 'text' or native is _SAME) else _deep(native)
+    raise KeyError(label)
+
+
+def build_value_doc(dtype, label, entered, among, place):
+    """Document / Section 'site' / Section 'layer'; the Property 'special' holds the value (in 'layer', or in 'site'
+    which lies on the chain of 'layer'); every Section also has an ordinary Property of the same dtype.
+    None when the library does not accept the value (then there is no original to copy)."""
+    special = special_value(dtype, label, entered)
+    vals = [special]
+    if among:
+        o = ordinary_values(dtype, entered)
+        vals = [o[0], special, o[1]]
+    with h.quiet():
+        try:
+            doc = odml.Document(author='values', version='1')
+            site = odml.Section(name='site', type='t', parent=doc)
+            layer = odml.Section(name='layer', type='t/l', parent=site)
+            odml.Property(name='usual', dtype=dtype, values=ordinary_values(dtype, 'native'), parent=site)
+            odml.Property(name='special', dtype=dtype, values=vals, parent=layer if place == 'leaf' else site)
+            odml.Property(name='word', dtype='string', values=['w'], parent=layer)
+        except Exception:       # noqa - not accepted: not a stored value
+            return None
+    return doc
+
+
+def value_makers(tier, seed):
+    """[(witness, make)] over the value-content dimension (see above)."""
+    out = []
+    for dtype, label, entered, among, place in value_specs(tier):
+        wit = {'shape': '(((),),)', 'fill': 'c11-values', 'linked': False, 'naming': 'plain', 'loaded': None,
+               'values': '%s %s' % (dtype, label), 'entered': entered, 'among-ordinary': among, 'place': place}
+        make = (lambda a=(dtype, label, entered, among, place): build_value_doc(*a))
+        if make() is not None:
+            out.append((wit, make))
+    return out
+
+
+def value_suffix(wit):
+    """Part of the failure class of a document of the value-content dimension: WHICH value makes the case special."""
+    return ' [holds %s]' % wit['values'] if wit.get('values') else ''
+
+
+def value_key(wit):
+    return (wit.get('values', ''), wit.get('entered', ''), wit.get('among-ordinary', ''), wit.get('place', ''))
+
+
+# ---------------------------------------------------------------------------------------------
 # documents (re-buildable: independence checks destroy the original)
 # ---------------------------------------------------------------------------------------------
 
-def doc_makers(tier, seed, max_secs=None, per_shape=None, naming='full', relations='full', inherit='full'):
+def doc_makers(tier, seed, max_secs=None, per_shape=None, naming='full', relations='full', inherit='full', values=True):
     """[(witness, make)] ; make() builds the same document (up to uuids) every time it is called."""
     if max_secs is None:
         max_secs = 4 if tier == 'quick' else 5
@@ -937,6 +1084,8 @@ def doc_makers(tier, seed, max_secs=None, per_shape=None, naming='full', relatio
         out += relation_makers(tier, seed, scope=relations)
     if inherit:
         out += inherit_makers(tier, seed, scope=inherit)
+    if values:
+        out += value_makers(tier, seed)
     return out
 
 
@@ -1240,7 +1389,7 @@ def judge_clone(col, name, orig, copy, children, keep_id, witness, via='clone', 
         classes = name_classes(orig)
 
     def fail(clause, feature, detail):
-        col.fail(check='%s/%s' % (name, clause), cls={'clause': clause, 'feature': feature},
+        col.fail(check='%s/%s' % (name, clause), cls={'clause': clause, 'feature': feature + value_suffix(witness)},
                  witness=dict(witness, **base), detail=detail)
 
     if not isinstance(copy, type(orig)):
@@ -1387,7 +1536,10 @@ def run_clone(tier, seed):
                          'inherited-attribute dimension: every subset of levels {Document, each Section} defines a repository '
                          '(different URLs; Document and one Section the same URL), set by setter / field / loaded from file; '
                          'public getters of every copied object compared with the original object; clones of Sections moved '
-                         'into 4 kinds of places of another document', exhaustive=False)
+                         'into 4 kinds of places of another document; value-content dimension: every dtype x its extreme / '
+                         'unusual legitimate values (VALUE_CASES) x entered as text / native x alone / among ordinary values x '
+                         'held by the copied Section / a Section above it (distinct += value class, way entered, among, place)',
+              exhaustive=False)
     for wit, make in doc_makers(tier, seed):
         doc = make()
         classes = name_classes(doc)
@@ -1410,12 +1562,13 @@ def run_clone(tier, seed):
                        idc[id(node)], len(set(ids_below)) < len(ids_below),
                        any(idc[id(x)] != 'unique' for x in below), cont.get(id(node), 'n/a'),
                        inh.get(id(node), 'none'), tuple(sorted({inh[id(x)] for x in below if id(x) in inh})),
-                       wit.get('inherit', '').rsplit(' ', 1)[-1])
+                       wit.get('inherit', '').rsplit(' ', 1)[-1]) + value_key(wit)
                 col.case(cls_key=key + (1,),
                          sample='%s %s children=%s keep_id=%s' % (wit['shape'], node_path(node), children, keep_id))
                 kind, copy = clone_call(node, children, keep_id)
                 if kind == 'exc':
-                    col.fail(check=name + '/returns', cls={'clause': 'returns', 'feature': '%s %s' % (k, type(copy).__name__)},
+                    col.fail(check=name + '/returns',
+                             cls={'clause': 'returns', 'feature': '%s %s' % (k, type(copy).__name__) + value_suffix(wit)},
                              witness=dict(w, children=children, keep_id=keep_id), detail='clone raised %r' % (copy,))
                 else:
                     judge_clone(col, name, node, copy, children, keep_id, w, classes=classes, names=names, inh=inh)
@@ -1439,7 +1592,8 @@ def run_clone(tier, seed):
                     kind2, copy2 = clone_call(copy, children, keep_id)
                     w2 = dict(w, generation='copy of the copy')
                     if kind2 == 'exc':
-                        col.fail(check=name + '/returns', cls={'clause': 'returns', 'feature': '%s %s' % (k, type(copy2).__name__)},
+                        col.fail(check=name + '/returns',
+                                 cls={'clause': 'returns', 'feature': '%s %s' % (k, type(copy2).__name__) + value_suffix(wit)},
                                  witness=dict(w2, children=children, keep_id=keep_id), detail='clone of the copy raised %r' % (copy2,))
                     else:
                         judge_clone(col, name, copy, copy2, children, keep_id, w2, classes=classes2, names=names2,
@@ -1465,7 +1619,7 @@ def _templates_part(col, name, tier, seed):
     tempfile.tempdir = os.path.join(tdir, 'tmp')
     try:
         makers = [m for m in doc_makers(tier, seed, max_secs=3, per_shape=1, naming='reduced', relations='reduced',
-                                          inherit='reduced')
+                                          inherit='reduced', values=False)
                   if not m[0]['linked'] and not m[0]['loaded']]
         for n, (wit, make) in enumerate(makers):
             doc = make()
@@ -1651,7 +1805,8 @@ def run_export_leaf(tier, seed):
                          'detached from it; distinct = (root kind, node kind, depth, siblings present, properties on '
                          'the chain, name/id relation of the node, id-related names on the chain, linked, loaded, id '
                          'relation of node and exported Section, ids repeated on the chain, content relation, own / '
-                         'inherited repository at every level of the chain - inherited-attribute dimension as in C11.clone)',
+                         'inherited repository at every level of the chain - inherited-attribute dimension as in C11.clone; '
+                         'value class, way entered, among ordinary values, place - value-content dimension as in C11.clone)',
               exhaustive=False)
 
     def cases(root, wit):
@@ -1682,11 +1837,12 @@ def run_export_leaf(tier, seed):
                               bool(wit['loaded']), idc[id(node)], idc[id(last)], ids_on_chain,
                               cont.get(id(node), 'n/a'), cont.get(id(last), 'n/a'),
                               tuple(inh.get(id(c), 'none') for c in chain) if inh else (),
-                              wit.get('inherit', '').rsplit(' ', 1)[-1]),
+                              wit.get('inherit', '').rsplit(' ', 1)[-1]) + value_key(wit),
                      sample='%s %s' % (wit['shape'], node_path(node)))
             kind, res = h.call(node.export_leaf)
             if kind == 'exc':
-                col.fail(check=name + '/returns', cls={'clause': 'returns', 'feature': '%s %s' % (k, type(res).__name__)},
+                col.fail(check=name + '/returns',
+                         cls={'clause': 'returns', 'feature': '%s %s' % (k, type(res).__name__) + value_suffix(wit)},
                          witness=w, detail='export_leaf raised %r' % (res,))
                 continue
             if kind_of(res) != rootkind or not isinstance(res, (BaseDocument, BaseSection)):
@@ -1697,14 +1853,15 @@ def run_export_leaf(tier, seed):
             if d:
                 col.fail(check=name + '/exact-chain',
                          cls={'clause': 'exact-chain',
-                              'feature': '%s: %s; %s' % (k, locate_chain_difference(chain, res), ids_on_chain)},
+                              'feature': '%s: %s; %s' % (k, locate_chain_difference(chain, res), ids_on_chain) + value_suffix(wit)},
                          witness=w, detail='first difference expected chain vs result: %s' % d)
             with h.quiet():
                 pub = public_problems(chain_triples(chain, res), inh, ids=True)
                 eff = chain_effective_problems(chain, res, inh)
             for feature, detail in pub:
                 col.fail(check=name + '/public-attributes-equal',
-                         cls={'clause': 'public-attributes-equal', 'feature': '%s: %s' % (k, feature)}, witness=w, detail=detail)
+                         cls={'clause': 'public-attributes-equal', 'feature': '%s: %s' % (k, feature) + value_suffix(wit)},
+                         witness=w, detail=detail)
             for feature, detail in eff:
                 col.fail(check=name + '/applicable-repository',
                          cls={'clause': 'applicable-repository', 'feature': '%s: %s' % (k, feature)}, witness=w, detail=detail)
@@ -1715,7 +1872,7 @@ def run_export_leaf(tier, seed):
                 if feature not in seen:
                     seen.add(feature)
                     col.fail(check=name + '/lookup-by-original-name',
-                             cls={'clause': 'lookup-by-original-name', 'feature': '%s: %s' % (k, feature)},
+                             cls={'clause': 'lookup-by-original-name', 'feature': '%s: %s' % (k, feature) + value_suffix(wit)},
                              witness=w, detail=detail)
             shared = set(identities(root)) & set(identities(res))
             if shared:
@@ -2175,7 +2332,9 @@ def run_independence(tier, seed):
                          'name/id relation of the node, loaded, with whom the node shares its id, repeated ids in the '
                          'document, content relation of the node, own / inherited repository of the node); documents of '
                          'the inherited-attribute dimension: additional edit = define / re-define / remove a repository at '
-                         'any level, observed = private state AND get_repository() of every object of the other tree',
+                         'any level, observed = private state AND get_repository() of every object of the other tree; '
+                         'value-content dimension as in C11.clone (quick tier: the Property holding the value and the Sections '
+                         'above it as copy root), and every such value list handed out by / handed in to `values`',
               exhaustive=False)
     rnd_plain = random.Random('c11-ind-%s' % seed)
     rnd_inh = random.Random('c11-ind-inh-%s' % seed)    # own stream: the draws for the other documents stay as they were
@@ -2202,13 +2361,19 @@ def run_independence(tier, seed):
             if wit.get('relations') and tier == 'quick' and idx > 0 and pidc[id(pnodes[idx])] == 'unique' \
                     and pcont.get(id(pnodes[idx])) in ('distinct', 'name-of-object-above'):
                 continue        # quick tier: of the relation documents only the Document and the related objects
+            holds_special = wit.get('values') and any(p._name == 'special' for p in _props(pnodes[idx]))
+            if wit.get('values') and tier == 'quick' and (k == 'document' or not holds_special):
+                continue        # quick tier: of the value documents only the Property holding the value and the Sections above it
             ncls = (pname.get(id(pnodes[idx]), 'n/a'), pidc[id(pnodes[idx])], shared_ids,
-                    pcont.get(id(pnodes[idx]), 'n/a'), pinh.get(id(pnodes[idx]), 'none'), inherit)
+                    pcont.get(id(pnodes[idx]), 'n/a'), pinh.get(id(pnodes[idx]), 'none'), inherit) + \
+                (value_key(wit) if holds_special else ())
             ways = [('clone', True, False), ('clone', True, True)]
             if k != 'property':
                 ways.append(('clone', False, False))
             if k != 'document':
                 ways.append(('export_leaf', None, None))
+            if wit.get('values') and tier == 'quick' and k == 'section':
+                ways = [('clone', True, False), ('export_leaf', None, None)]
             for way, children, keep_id in ways:
                 for direction in ('edit-copy', 'edit-original'):
                     doc = make()
@@ -2241,7 +2406,8 @@ def run_independence(tier, seed):
                     if d:
                         col.fail(check='%s/%s' % (name, direction),
                                  cls={'clause': direction + '-leaves-other-unchanged',
-                                      'feature': '%s of %s after %s' % (way, k, edit_class(labels[-1]))},
+                                      'feature': '%s of %s after %s' % (way, k, edit_class(labels[-1])) +
+                                                 (value_suffix(wit) if holds_special else '')},
                                  witness=dict(wit, node=node_path(node), way=way, children=children, keep_id=keep_id, edits=labels),
                                  detail='the %s changed: %s' % ('original' if direction == 'edit-copy' else 'copy', d))
 
@@ -2250,7 +2416,15 @@ def run_independence(tier, seed):
     pool = [(dtype, list(vals)) for dtype, vlists in h.VALUE_POOL.items() for vals in vlists]
     pool += [('2-tuple', [['1', '2'], ['3', '4']]), ('3-tuple', [['a', 'b', 'c']]), ('string', ['[a,b]']),
              ('int', ['1', '2']), ('float', [1, 2])]
-    for dtype, vals in pool:
+    tags = {}
+    # value-content dimension: every extreme / unusual value, as text and as native object, alone and among ordinary ones
+    for vdtype, vlabel, entered, among, _place in value_specs('thorough'):
+        if _place == 'leaf':
+            special = special_value(vdtype, vlabel, entered)
+            o = ordinary_values(vdtype, entered)
+            tags[len(pool)] = ('%s %s' % (vdtype, vlabel), entered, among)
+            pool.append((vdtype, [o[0], special, o[1]] if among else [special]))
+    for pi, (dtype, vals) in enumerate(pool):
         nested_in = any(isinstance(v, list) for v in vals)
         for way in ('values-getter', 'values-setter', 'constructor'):
             for direction in ('edit-list', 'edit-property'):
@@ -2269,7 +2443,7 @@ def run_independence(tier, seed):
                 if kind == 'exc':
                     continue
                 nested = any(isinstance(v, list) for v in p._values)
-                col.case(cls_key=(way, dtype, direction, nested, nested_in, len(vals) > 1),
+                col.case(cls_key=(way, dtype, direction, nested, nested_in, len(vals) > 1) + tags.get(pi, ()),
                          sample='%s %s %r %s' % (way, dtype, vals, direction))
                 if direction == 'edit-list':
                     before = h.snap(sec)
@@ -2290,7 +2464,8 @@ def run_independence(tier, seed):
                 if d:
                     col.fail(check='%s/%s' % (name, way),
                              cls={'clause': '%s-%s-leaves-%s-unchanged' % (way, direction, changed),
-                                  'feature': '%s after %s' % ('nested-value' if nested else 'flat-value', edit_class(labels[-1]))},
+                                  'feature': '%s after %s' % ('nested-value' if nested else 'flat-value', edit_class(labels[-1])) +
+                                             (' [holds %s]' % tags[pi][0] if pi in tags else '')},
                              witness={'dtype': dtype, 'values': repr(vals), 'way': way, 'edits': labels},
                              detail='the %s changed: %s' % (changed, d))
     cleanup_work()
